@@ -68,14 +68,14 @@ std::vector<TecmpPayloadPtr> TECMP::Decoder::HandlePayload(const uint8_t* data, 
         case CmpHeader::MessageType::cmStatus:
         {
             auto payload = GetCaptureModulePayload(data, size);
-            if (payload->getMessageType() == CmpHeader::MessageType::cmStatus)
+            if (payload && payload->getMessageType() == CmpHeader::MessageType::cmStatus)
                 payloads.push_back(payload);
             break;
         }
         case CmpHeader::MessageType::data:
         {
             auto payload = GetDataPayload(data, size, header);
-            if (payload->getMessageType() == CmpHeader::MessageType::data)
+            if (payload && payload->getMessageType() == CmpHeader::MessageType::data)
                 payloads.push_back(payload);
             break;
         }
